@@ -480,6 +480,51 @@ def opInterp (j : Json) : Json :=
       ("printouts", toJson st.ms.prints), ("headers", toJson headers),
       ("unmodelled", match st.ms.bad with | some w => toJson w | none => Json.null)]
 
+/-! op `print`: a print string and the data a run holds at that moment → what print sends out.
+    op `printspec`: chunks → the print string as written, whether C16's theorem covers it, and
+    the text that must come out given the values of the references -/
+def kvOfJson (j : Json) (k : String) : List (Val.Value × Val.Value) :=
+  match valueOfJson ((j.getObjVal? k).toOption.getD Json.null) with
+  | .dict kv => kv
+  | _ => []
+
+def opPrint (j : Json) : Json :=
+  let env : Print.PEnv := { vars := kvOfJson j "vars", headers := strList j "headers", line := strList j "line",
+                            metadata := kvOfJson j "metadata", fields := kvOfJson j "fields" }
+  match Print.printWith env (getStr j "tpl") with
+  | .printed s => Json.mkObj [("printed", toJson s)]
+  | .error => Json.mkObj [("error", toJson true)]
+  | .unmodelled w => Json.mkObj [("unmodelled", toJson w)]
+
+def nameFormOfJson (j : Json) : Spec.Print.NameForm :=
+  if getBool j "quoted" then .quoted (getStr j "s").toList else .simple (getStr j "s").toList
+
+def dtypeOfString (s : String) : Print.DType :=
+  if s == "headers" then .headers else if s == "metadata" then .metadata else if s == "csvpath" then .csvpath else .variables
+
+def chunkOfJson (j : Json) : Spec.Print.Chunk :=
+  match j.getObjVal? "lit" with
+  | .ok (.str s) => .lit s.toList
+  | _ =>
+    .ref { dtype := dtypeOfString (getStr j "type"),
+           name := nameFormOfJson ((j.getObjVal? "name").toOption.getD Json.null),
+           tracking := match j.getObjVal? "tracking" with
+             | .ok (.obj o) => some (nameFormOfJson (.obj o))
+             | _ => none }
+
+def opPrintSpec (j : Json) : Json :=
+  let chunks := (getArr j "chunks").toList.map chunkOfJson
+  let values := (getArr j "values").toList.map (fun x => match x with | .str s => some s.toList | _ => none)
+  -- the i-th reference of the chunk list has the i-th value
+  let rec fill : List Spec.Print.Chunk → List (Option (List Char)) → Option (List Char)
+    | [], _ => some []
+    | .lit s :: rest, vs => (fill rest vs).map (s ++ ·)
+    | .ref _ :: rest, v :: vs => (match v, fill rest vs with | some x, some out => some (x ++ out) | _, _ => none)
+    | .ref _ :: _, [] => none
+  Json.mkObj [("source", toJson (String.ofList (Spec.Print.source false chunks))),
+              ("wf", toJson (Spec.Print.wfB chunks)),
+              ("expected", match fill chunks values with | some e => toJson (String.ofList e) | none => Json.null)]
+
 def handle (line : String) : Json :=
   match Json.parse line with
   | .error e => Json.mkObj [("error", toJson s!"bad-json: {e}")]
@@ -499,6 +544,8 @@ def handle (line : String) : Json :=
     else if op == "chain" then opChain j
     else if op == "headers" then opHeaders j
     else if op == "interp" then opInterp j
+    else if op == "print" then opPrint j
+    else if op == "printspec" then opPrintSpec j
     else Json.mkObj [("error", toJson s!"bad-op: {op}")]
 
 partial def loop (h : IO.FS.Stream) (out : IO.FS.Stream) : IO Unit := do
